@@ -134,6 +134,8 @@ CURATED = {
     'k_ortho_wide9': O(O(L, L, L, L, L, L, L, L, C('Composite', L, L)), O(C('Resumable', L, L), C('Composite', L, L)), C('Composite', L, O(L, L))),
     # orthogonal region exactly 8 wide (its prong-bit view ends on a unit boundary) whose prongs hold nested regions
     'k_ortho_w8': C('Composite', O(C('Composite', L, C('Composite', L, L)), L, L, L, L, L, C('Resumable', L, C('Resumable', L, L)), C('Composite', L, L)), L),
+    # wide random regions of plain states (rounding in the cumulative walk, trailing zero utilities)
+    'k_random_wide': C('Composite', C('Random', L, L, L, L, L, L), C('Random', L, L, L, C('Utilitarian', L, L), L), L),
     # width-1 regions (no save/load)
     'k_width1': C('Composite', C('Composite', L), C('Resumable', C('Composite', L, L)), L),
 }
